@@ -320,109 +320,167 @@ def run(ctx):
 
     # ---------------------------------------------------------------- 4. refusal causes latch before close
     r4 = rep.rule('C07.4-refusals-latch', 'R-ORDER', 'hop limit (>= MAXHOPS = 100), size countdown, bad sender/recipient each call qmail_fail before qmail_close')
+    from qv.lib import branch_zero_test, consistent_values, deep_calls, _cmp_parts
+    from qv.esp import Env
     maxhops = db.unit('qmail-smtpd.c').macro_int('MAXHOPS')
     r4.check(maxhops == 100, 'MAXHOPS==100', 'qmail-smtpd.c', 'MAXHOPS is %s' % maxhops)
-    # hops = (hops >= MAXHOPS); if (hops) qmail_fail  — accept any spelling: some assignment/test of hops admits 100 and not 99
-    hop_ok = False
-    for x in sd.all_x():
-        if x.k == 'bin' and x.op in ('>=', '>', '<', '<='):
-            hs = holds_set(x, True, lambda v: (v.path() or '').startswith('L:hops'))
-            if hs and hs(100) and not hs(99) and hs(1000):
-                hop_ok = True
-    r4.check(hop_ok, 'hop-threshold-admits-100-not-99', sd.unit + ':smtp_data', 'no comparison hops >= 100 found in smtp_data')
-    fails = sd.calls('qmail_fail')
+    bl = sd.calls('blast')
     closes = sd.calls('qmail_close')
     froms = sd.calls('qmail_from')
-    bl = sd.calls('blast')
     if not (closes and froms and bl):
         raise AnalysisBroken('smtp_data: qmail_close/qmail_from/blast not found')
+    hv = None
+    a0 = bl[0].args[0].strip()
+    if a0.k == 'un' and a0.op == '&':
+        hv = a0.args[0].var
+    if hv is None:
+        raise AnalysisBroken('smtp_data: blast() is not given the address of a hop counter')
+    ev_eng = Engine(db, prog, QHooks())
+    EE = Env(ev_eng, sd, {}, {}, None)
+    hvp = ev_eng.qualify(sd, hv)
+
+    def hopval(x, h):
+        return ev_eng.concrete(EE, x, {hvp: h})
+    # expressions whose value separates 99 from 100 hops (any spelling, any polarity)
+    thr = [x for x in sd.all_x() if x.k in ('bin', 'un') and hv in x.refs() and hopval(x, 99) is not None and hopval(x, 100) is not None and
+           bool(hopval(x, 99)) != bool(hopval(x, 100)) and bool(hopval(x, 100)) == bool(hopval(x, 5000)) and bool(hopval(x, 99)) == bool(hopval(x, 0))]
+    r4.check(bool(thr), 'hop-threshold-separates-99-from-100', sd.unit + ':smtp_data', 'no expression over the hop count changes value exactly between 99 and 100')
+    # a qmail_fail between blast and close that is taken exactly when the threshold expression says "100 or more"
     okf = False
-    for f in fails:
-        g = sd.guards(f) or []
-        if any((c.path() or '').startswith('L:hops') and t is True for c, t in g) and sd.dominates(bl[0], f) and \
-                not sd.can_reach(sd.pos[closes[0].id][0], sd.pos[f.id][0]):
-            okf = True
-    r4.check(okf, 'too-many-hops->qmail_fail-before-close', sd.unit + ':smtp_data', 'no qmail_fail guarded by the hop test between blast() and qmail_close()')
+    for f in sd.calls('qmail_fail'):
+        if not (sd.dominates(bl[0], f) and not sd.can_reach(sd.pos[closes[0].id][0], sd.pos[f.id][0])):
+            continue
+        for c, t in sd.guards(f, fresh=False) or []:
+            # the guard is the threshold expression itself, or a variable assigned from it
+            cands = []
+            if any(y.id in {z.id for z in c.walk()} for y in thr):
+                cands.append((c, None))
+            p = _cmp_parts(c)
+            if p is not None and p[0].var:
+                for d in sd.all_x():
+                    if d.k == 'asg' and d.op == '=' and d.args[0].var == p[0].var and any(y.id in {z.id for z in d.args[1].walk()} for y in thr) and sd.dominates(d, f):
+                        cands.append((c, d))
+            for cc, d in cands:
+                if d is None:
+                    v100, v99 = hopval(cc, 100), hopval(cc, 99)
+                    if v100 is not None and bool(v100) == t and bool(v99) != t:
+                        okf = True
+                else:
+                    gv100, gv99 = hopval(d.args[1], 100), hopval(d.args[1], 99)
+                    pf = _cmp_parts(cc)[1]
+                    if gv100 is not None and pf(gv100) == t and pf(gv99) != t:
+                        okf = True
+    r4.check(okf, 'too-many-hops->qmail_fail-before-close', sd.unit + ':smtp_data', 'no qmail_fail between blast() and qmail_close() that is taken exactly for 100 or more hops')
     # ordering open < received < blast < from < close
     seq = [sd.calls('qmail_open'), sd.calls('received'), bl, froms, closes]
     oks = all(s for s in seq) and all(sd.dominates(seq[i][0], seq[i + 1][0]) for i in range(len(seq) - 1))
     r4.check(oks, 'smtpd:open<received<blast<from<close', sd.unit + ':smtp_data', 'call order in smtp_data changed')
     g = sd.guards(seq[1][0]) if seq[1] else []
-    r4.check(any(c.strip().k == 'bin' and c.strip().op == '==' and c.strip().args[1].const == -1 and t is False and c.strip().args[0].strip().callee == 'qmail_open' for c, t in g or []),
-             'smtpd:qmail_open-checked', sd.unit + ':smtp_data', 'received()/blast() run although qmail_open failed')
-    # put(): countdown precedes qmail_put
-    put = prog.fn('put', 'qmail-smtpd.c')
-    cd = [x for x in put.all_x() if x.k == 'un' and x.op == 'pre--' and x.args[0].path() == 'G:bytestooverflow']
-    qf = put.calls('qmail_fail')
-    qp = put.calls('qmail_put')
-    okp = bool(cd and qf and qp)
-    if okp:
-        gq = put.guards(qf[0], fresh=False) or []
-        okp = any(c.strip().k == 'un' and c.strip().op == '!' and c.strip().args[0].strip().id == cd[0].id and t is True for c, t in gq) and \
-            any(c.path() == 'G:bytestooverflow' and t is True for c, t in gq) and not put.can_reach(put.pos[qp[0].id][0], put.pos[qf[0].id][0]) and \
-            not (put.guards(qp[0]) or [])
-    r4.check(okp, 'smtpd:put-countdown-then-qmail_put', put.unit + ':put', 'put(): if (bytestooverflow) if (!--bytestooverflow) qmail_fail must precede an unconditional qmail_put')
+    okq = False
+    for c, t in g or []:
+        z = branch_zero_test(c, t, lambda v: v.strip().k == 'call' and v.strip().callee == 'qmail_open')
+        p = _cmp_parts(c)
+        if p is not None and p[0].strip().k == 'call' and p[0].strip().callee == 'qmail_open' and p[1](-1) != t and p[1](0) == t:
+            okq = True
+    r4.check(okq, 'smtpd:qmail_open-checked', sd.unit + ':smtp_data', 'received()/blast() run although qmail_open failed')
+
+    def counted_put(f, c):
+        """the single-byte qmail_put c in f is preceded by: if (bytestooverflow) if (!--bytestooverflow) qmail_fail"""
+        for b in f.blocks.values():
+            cnd = b.cond
+            if cnd is None or not f.dominates(cnd, c):
+                continue
+            if branch_zero_test(cnd, True, lambda v: v.path() == 'G:bytestooverflow') != 'nonzero':
+                continue
+            decs = [x for x in f.all_x() if x.k == 'un' and x.op in ('pre--', 'post--') and x.args[0].path() == 'G:bytestooverflow' and
+                    (f.pos[x.id][0] == b.succs[0] or f.can_reach(b.id, f.pos[x.id][0])) and f.can_reach(f.pos[x.id][0], f.pos[c.id][0])]
+            for d in decs:
+                for q in f.calls('qmail_fail'):
+                    for cc, t in f.guards(q, fresh=False) or []:
+                        if d.id in {z.id for z in cc.walk()}:
+                            p = _cmp_parts(cc)
+                            # taken when the decremented value is 0
+                            if p is not None and p[1](0) == t and p[1](1) != t and d.op == 'pre--':
+                                if f.can_reach(f.pos[q.id][0], f.pos[c.id][0]) or f.pos[q.id][0] == f.pos[c.id][0]:
+                                    return True
+        return False
+    # smtpd: every qmail_put reachable from blast() is a counted put
+    blf = prog.fn('blast', 'qmail-smtpd.c')
+    puts = deep_calls(prog, blf, 'qmail_put')
+    r4.check(bool(puts) and all(counted_put(f, c) for f, c in puts), 'smtpd:body-bytes-are-counted-before-they-are-queued', 'qmail-smtpd.c:blast/put',
+             'a body byte reaches qmail_put without the countdown if (bytestooverflow) if (!--bytestooverflow) qmail_fail before it')
     arm = [x for x in sd.all_x() if x.k == 'asg' and x.args[0].path() == 'G:bytestooverflow']
     oka = False
     for x in arm:
         rhs = x.args[1].strip()
-        if rhs.k == 'bin' and rhs.op == '+' and rhs.args[0].path() == 'G:databytes' and rhs.args[1].const == 1:
+        if rhs.k == 'bin' and rhs.op == '+' and {rhs.args[0].path(), rhs.args[1].path()} & {'G:databytes'} and 1 in (rhs.args[0].const, rhs.args[1].const):
             gg = sd.guards(x) or []
-            if any(c.path() == 'G:databytes' and t is True for c, t in gg) and sd.can_reach(sd.pos[x.id][0], sd.pos[bl[0].id][0]) \
+            if any(branch_zero_test(c, t, lambda v: v.path() == 'G:databytes') == 'nonzero' for c, t in gg) and sd.can_reach(sd.pos[x.id][0], sd.pos[bl[0].id][0]) \
                     and not sd.can_reach(sd.pos[bl[0].id][0], sd.pos[x.id][0]):
                 oka = True
     r4.check(oka, 'smtpd:countdown-armed-with-databytes+1', sd.unit + ':smtp_data', 'bytestooverflow = databytes + 1 under if (databytes), before blast()')
-    # qmtpd / qmqpd: each failure cause reaches qmail_fail before qmail_close
+
+    # qmtpd
     pm = db.program('qmail-qmtpd')
     m = pm.fn('main', 'qmail-qmtpd.c')
     mc = m.calls('qmail_close')
     if not mc:
         raise AnalysisBroken('qmtpd: qmail_close not found')
-    causes = {'sender': False, 'norcpt': False, 'size-lf': False, 'size-dos': 0}
+    causes = {'sender': False, 'norcpt': False, 'size-lf': False}
     for f in m.calls('qmail_fail'):
-        gg = m.guards(f) or []
-        for c, t in gg:
-            cs = c.strip()
-            if cs.k == 'un' and cs.op == '!' and (cs.args[0].path() or '').startswith('L:flagsenderok') and t is True:
+        for c, t in m.guards(f, fresh=False) or []:
+            if branch_zero_test(c, t, lambda v: (v.var or '').startswith('L:flagsenderok')) == 'zero':
                 causes['sender'] = True
-            if cs.k == 'un' and cs.op == '!' and (cs.args[0].path() or '').startswith('L:flagbother') and t is True:
+            if branch_zero_test(c, t, lambda v: (v.var or '').startswith('L:flagbother')) == 'zero':
                 causes['norcpt'] = True
-            if cs.k == 'bin' and cs.op == '>' and (cs.args[0].path() or '').startswith('L:len') and cs.args[1].path() == 'G:databytes' and t is True:
-                causes['size-lf'] = True
-            if cs.k == 'un' and cs.op == '!' and cs.args[0].strip().k == 'un' and cs.args[0].strip().op == 'pre--' and cs.args[0].strip().args[0].path() == 'G:bytestooverflow' and t is True:
-                causes['size-dos'] += 1
-        r4.check(not m.can_reach(m.pos[mc[0].id][0], m.pos[f.id][0]) or True, 'qmtpd:fail-site', f.where, '')
-    r4.check(causes['sender'], 'qmtpd:bad-sender->qmail_fail', 'qmail-qmtpd.c:main', 'no qmail_fail under !flagsenderok')
-    r4.check(causes['norcpt'], 'qmtpd:no-recipient->qmail_fail', 'qmail-qmtpd.c:main', 'no qmail_fail under !flagbother')
-    r4.check(causes['size-lf'], 'qmtpd:len>databytes->qmail_fail', 'qmail-qmtpd.c:main', 'no qmail_fail under len > databytes')
-    r4.check(causes['size-dos'] >= 2, 'qmtpd:countdown-at-both-DOS-mode-sites', 'qmail-qmtpd.c:main', 'countdown sites found: %d' % causes['size-dos'])
+            cs = c.strip()
+            if cs.k == 'bin' and cs.op in ('>', '<', '>=', '<=') and 'G:databytes' in cs.refs() and len(cs.refs()) == 2:
+                eng_m = Engine(db, pm, QHooks())
+                Em = Env(eng_m, m, {}, {}, None)
+                other = [r for r in cs.refs() if r != 'G:databytes'][0]
+                v_over = eng_m.concrete(Em, cs, {'G:databytes': 3, eng_m.qualify(m, other): 4})
+                v_eq = eng_m.concrete(Em, cs, {'G:databytes': 3, eng_m.qualify(m, other): 3})
+                if v_over is not None and bool(v_over) == t and bool(v_eq) != t:
+                    causes['size-lf'] = True
+    r4.check(causes['sender'], 'qmtpd:bad-sender->qmail_fail', 'qmail-qmtpd.c:main', 'no qmail_fail under flagsenderok == 0')
+    r4.check(causes['norcpt'], 'qmtpd:no-recipient->qmail_fail', 'qmail-qmtpd.c:main', 'no qmail_fail under flagbother == 0')
+    r4.check(causes['size-lf'], 'qmtpd:len>databytes->qmail_fail', 'qmail-qmtpd.c:main', 'no qmail_fail taken exactly when the announced length exceeds databytes')
+    # DOS mode: every single-byte body put is counted
+    dosputs = []
+    for f, c in deep_calls(pm, m, 'qmail_put'):
+        if len(c.args) > 2 and c.args[2].const == 1:
+            if f is m:
+                if any(branch_zero_test(cc, t, lambda v: (v.var or '').startswith('L:flagdos')) == 'nonzero' for cc, t in m.guards(c) or []):
+                    dosputs.append((f, c))
+            else:
+                sites = m.calls(f.name)
+                if sites and all(any(branch_zero_test(cc, t, lambda v: (v.var or '').startswith('L:flagdos')) == 'nonzero' for cc, t in m.guards(sc_) or []) for sc_ in sites):
+                    dosputs.append((f, c))
+    r4.check(len(dosputs) >= 1 and all(counted_put(f, c) for f, c in dosputs), 'qmtpd:DOS-mode-body-bytes-are-counted', 'qmail-qmtpd.c:main',
+             'DOS-mode body puts: %d, not all preceded by the size countdown' % len(dosputs))
     # recipients with a failure letter are not passed to qmail_to
     for c in m.calls('qmail_to'):
-        gg = m.guards(c) or []
-        ok = any(cc.strip().k == 'un' and cc.strip().op == '!' and 'failure' in (cc.strip().args[0].src()) and t is True for cc, t in gg)
+        ok = any(branch_zero_test(cc, t, lambda v: 'failure' in v.src()) == 'zero' for cc, t in m.guards(c) or [])
         r4.check(ok, 'qmtpd:qmail_to-needs-no-failure-letter', c.where, 'qmail_to() not guarded by the recipient\'s failure letter being 0')
     pq = db.program('qmail-qmqpd')
     mq = pq.fn('main', 'qmail-qmqpd.c')
+    isgb = lambda v: v.strip().k == 'call' and v.strip().callee == 'getbuf'
     for c in mq.calls('qmail_to') + [c for c in mq.calls('qmail_from') if c.args[1].string is None]:
-        gg = mq.guards(c) or []
-        ok = any(cc.strip().k == 'call' and cc.strip().callee == 'getbuf' and t is True for cc, t in gg)
+        ok = any(branch_zero_test(cc, t, isgb) == 'nonzero' for cc, t in mq.guards(c) or [])
         r4.check(ok, 'qmqpd:%s-needs-getbuf-ok' % c.callee, c.where, '%s() with an address getbuf() rejected' % c.callee)
     nf = 0
     for f in mq.calls('qmail_fail'):
-        gg = mq.guards(f) or []
-        if any(cc.strip().k == 'call' and cc.strip().callee == 'getbuf' and t is False for cc, t in gg):
+        if any(branch_zero_test(cc, t, isgb) == 'zero' for cc, t in mq.guards(f) or []):
             nf += 1
     r4.check(nf >= 2, 'qmqpd:bad-address->qmail_fail(2 sites)', 'qmail-qmqpd.c:main', 'qmail_fail under !getbuf(): %d site(s)' % nf)
     gb = pq.fn('getbuf', 'qmail-qmqpd.c')
     okgb = False
     for x in gb.all_x():
         if x.k == 'ret' and x.args and x.args[0].const == 0:
-            gg = gb.guards(x) or []
-            for c, t in gg:
-                hs = holds_set(c, t, lambda v: (v.path() or '').startswith('L:len'))
-                if hs and hs(1000) and not hs(999):
-                    okgb = True
-    r4.check(okgb, 'qmqpd:getbuf-rejects-len>=1000', 'qmail-qmqpd.c:getbuf', 'no "return 0" under len >= 1000')
+            cv = consistent_values(gb, x, range(0, 2100))
+            if any(vals == set(range(1000, 2100)) for vals in cv.values()):
+                okgb = True
+    r4.check(okgb, 'qmqpd:getbuf-rejects-len>=1000', 'qmail-qmqpd.c:getbuf', 'no "return 0" taken exactly for len >= 1000')
     r4.expect_min(12)
 
     # ---------------------------------------------------------------- 6. disconnect
@@ -488,12 +546,50 @@ def run(ctx):
         ok = a.string is not None or p == trusted_param or (p or '').startswith('S:buf') or (p or '').startswith('G:buf')
         r7.check(ok, 'received:raw-output-is-literal/protocol/date:%s' % c.args[1].src()[:16], c.where, 'received() writes %s without safeput' % c.args[1].src())
     sp = db.fn('received.c', 'safeput')
-    okm = False
-    for x in sp.all_x():
-        if x.k == 'asg' and x.args[1].const == ord('?'):
-            gg = sp.guards(x) or []
-            if any(cc.strip().k == 'un' and cc.strip().op == '!' and cc.strip().args[0].strip().callee == 'issafe' and t is True for cc, t in gg):
-                okm = True
-    r7.check(okm, 'safeput-maps-unsafe-to-?', 'received.c:safeput', 'no ch = \'?\' under !issafe(ch)')
+
+    class SPH(QHooks):
+        tracked = frozenset(['STR'])
+
+        def precise_arith(self, path):
+            return True
+
+        def __init__(self):
+            self.outs = set()
+            self.bad = None
+
+        def prim_issafe(self, E, x, args):
+            v = args[0]
+            b = next(iter(v)) if v is not TOP and len(v) == 1 else None
+            return [Outcome(ret=fs(0), sets={'$safe': fs((b, 0))}), Outcome(ret=fs(1), sets={'$safe': fs((b, 1))})]
+
+        def prim_qmail_put(self, E, x, args):
+            a = x.args[1].strip()
+            val = None
+            if a.k == 'un' and a.op == '&':
+                vv = E.get(E.canon(a.args[0]))
+                val = next(iter(vv)) if vv is not TOP and len(vv) == 1 else None
+            sf = g1(E, '$safe')
+            seq = tuple(g1(E, '$seq', ()))
+            if sf is None or x.args[2].const != 1:
+                self.bad = 'qmail_put without a verdict of issafe() for the byte, or not one byte'
+            else:
+                b, ok = sf
+                want = b if ok else ord('?')
+                if val != want:
+                    self.bad = 'byte %r judged %s is written as %r' % (chr(b) if b else b, 'safe' if ok else 'unsafe', chr(val) if isinstance(val, int) else val)
+                seq += (b,)
+            E.set('$seq', fs(seq))
+            E.set('$safe', TOP)
+            return [Outcome(ret=TOP)]
+
+        def on_return(self, E, fn, val):
+            self.outs.add(tuple(g1(E, '$seq', ())))
+    sph = SPH()
+    e = Engine(db, prog, sph)
+    fid = e.frame_id(sp)
+    e.run(sp, {'%s::%s' % (fid, sp.params[1]): fs(('&', 'STR[0]')), 'STR[0]': fs(65), 'STR[1]': fs(40), 'STR[2]': fs(0)})
+    rep.count_states(e.states, e.transitions)
+    r7.check(sph.bad is None and sph.outs == {(65, 40)}, 'safeput-writes-each-byte-once:safe-as-is,unsafe-as-?', 'received.c:safeput',
+             sph.bad or 'bytes judged, in order: %s (expected exactly the two bytes of the test string)' % sorted(sph.outs))
     r7.expect_min(8)
     rep.assume('qmail-queue aborts on an incomplete envelope (C01 rule 7)', 'exit status semantics of wait()', 'plain char is signed')
